@@ -52,42 +52,65 @@ def jResult : Except Err Model → Json
   | .ok m => jObj [("ok", jModel m)]
   | .error e => jObj [("raises", jStr (errName e))]
 
-/-! the conversions of `Bin`, realised from tables the harness sends: attribute text ↦ the value
-`int()` / `float()` give for it, (group id, offset text, length text) ↦ the numbers stored there -/
+/-! the conversions of `Bin`: `int()`, `float()` and `get_binary_data` are the model's (`pyNat`, `pyFloat`,
+C05's `readValues` on the bytes of the `.ibd` the harness wrote, sent as hex) -/
 
-def lookupD {β} (tbl : List (String × β)) (k : String) (dflt : β) : β :=
-  match tbl.lookup k with
-  | some v => v
-  | none => dflt
+def hexVal (c : Char) : R Nat :=
+  if '0' ≤ c ∧ c ≤ '9' then pure (c.toNat - 48)
+  else if 'a' ≤ c ∧ c ≤ 'f' then pure (c.toNat - 87)
+  else throw s!"bad hex digit {c}"
 
-/-- `offsets[id]`, `lengths[id]`: the dictionary keeps the last array with that reference -/
-def arrayOf (s : SpecInfo) (id : String) : Option (String × String) :=
-  (s.arrays.reverse.find? (fun a => a.1 == id)).map (fun a => a.2)
+def hexBytes (s : String) : R (List UInt8) := do
+  let cs := s.toList.toArray
+  if cs.size % 2 ≠ 0 then throw "odd number of hex digits"
+  let mut out : Array UInt8 := Array.mkEmpty (cs.size / 2)
+  for i in [0:cs.size / 2] do
+    let x ← hexVal cs[2 * i]!
+    let y ← hexVal cs[2 * i + 1]!
+    out := out.push (UInt8.ofNat (16 * x + y))
+  pure out.toList
 
-def mkBin (ints : List (String × Nat)) (floats : List (String × Rat))
-    (reads : Std.HashMap (String × String × String) (List Rat)) : Bin :=
-  { int := fun s => lookupD ints s 0, float := fun s => lookupD floats s 0,
-    read := fun g s => match arrayOf s g.id with
-      | some (o, l) => reads.getD (g.id, o, l) []
-      | none => [] }
+/-- `binOfBytes ibd` with the reads of the models at hand computed once (`readOf` is evaluated for every array of
+every spectrum of `ms` and remembered under the arguments it depends on; anything else falls through to `readOf`) -/
+abbrev ReadKey := String × String × String × String        -- group id, declared type, offset text, length text
 
-/-- every text the extraction converts is in the tables, every spectrum has both arrays with strictly
-increasing non-empty m/z axes of the intensities' length, 1-based positions inside the image:
-the class on which `Pew.Imzml`'s placement and window sums are the NumPy ones -/
-def imagesHyp (B : Bin) (ints : List (String × Nat)) (floats : List (String × Rat))
-    (reads : Std.HashMap (String × String × String) (List Rat)) (m : Model) : Bool :=
-  let size := imageSizeOf B m
+def readKey (g : PGroup) (s : SpecInfo) : Option ReadKey :=
+  (arrayOf s g.id).map (fun (o, l) => (g.id, g.dtype, o, l))
+
+def readTable (ibd : List UInt8) (ms : List Model) : Std.HashMap ReadKey (Option (List Rat)) :=
+  ms.foldl (fun t m => m.spectra.foldl (fun t s => [m.mz, m.inten].foldl (fun t g =>
+    match readKey g s with
+    | some k => if t.contains k then t else t.insert k (readOf ibd g s)
+    | none => t) t) t) {}
+
+def readMemo (ibd : List UInt8) (tbl : Std.HashMap ReadKey (Option (List Rat))) (g : PGroup) (s : SpecInfo) : Option (List Rat) :=
+  match (readKey g s).bind (fun k => tbl.get? k) with
+  | some r => r
+  | none => readOf ibd g s
+
+def binMemo (ibd : List UInt8) (tbl : Std.HashMap ReadKey (Option (List Rat))) : Bin :=
+  { binOfBytes ibd with read := fun g s => (readMemo ibd tbl g s).getD [] }
+
+/-- `convertible` with the remembered reads -/
+def convertibleMemo (ibd : List UInt8) (tbl : Std.HashMap ReadKey (Option (List Rat))) (m : Model) : Bool :=
   (match m.scan.size with
-    | some (x, y) => (ints.lookup x).isSome && (ints.lookup y).isSome
+    | some (x, y) => (pyNat x).isSome && (pyNat y).isSome
     | none => true) &&
   m.spectra.all (fun s =>
-    (ints.lookup s.x).isSome && (ints.lookup s.y).isSome &&
-    (match s.tic with | some t => (floats.lookup t).isSome | none => true) &&
-    (match arrayOf s m.mz.id, arrayOf s m.inten.id with
-      | some (o1, l1), some (o2, l2) => reads.contains (m.mz.id, o1, l1) && reads.contains (m.inten.id, o2, l2)
-      | _, _ => false) &&
+    (pyNat s.x).isSome && (pyNat s.y).isSome &&
+    (match s.tic with | some t => (pyFloat t).isSome | none => true) &&
+    (readMemo ibd tbl m.mz s).isSome && (readMemo ibd tbl m.inten s).isSome)
+
+/-- every text the extraction converts is one the model converts (`convertible`), every spectrum has both
+arrays with strictly increasing (possibly empty) m/z axes of the intensities' length, 1-based positions inside the
+image: the class on which `Pew.Imzml`'s placement and window sums are the NumPy ones -/
+def imagesHyp (ibd : List UInt8) (tbl : Std.HashMap ReadKey (Option (List Rat))) (m : Model) : Bool :=
+  let B := binMemo ibd tbl
+  let size := imageSizeOf B m
+  convertibleMemo ibd tbl m &&
+  m.spectra.all (fun s =>
     (let t := toSpectrum B m s
-     Pew.Imzml.incrB t.mz && t.mz.length == t.it.length && !t.mz.isEmpty &&
+     Pew.Imzml.incrB t.mz && t.mz.length == t.it.length &&
      decide (1 ≤ t.x) && decide (1 ≤ t.y) && decide (t.x ≤ size.1) && decide (t.y ≤ size.2)))
 
 def jImages (B : Bin) (m : Model) (masses : List Rat) (w : Pew.Imzml.Width) : Json :=
@@ -96,66 +119,214 @@ def jImages (B : Bin) (m : Model) (masses : List Rat) (w : Pew.Imzml.Width) : Js
         ("tic", jList (jList (jOpt jRat)) (ticImageOf B m)),
         ("mass", jList (jList (jOpt (jList jRat))) (massImageOf B m masses w))]
 
+/-- the images of a model with one binary, `null` when the exact comparison does not apply -/
+def imagesOf (ibd : List UInt8) (tbl : Std.HashMap ReadKey (Option (List Rat))) (masses : List Rat) (w : Pew.Imzml.Width)
+    (m : Model) : Json :=
+  if imagesHyp ibd tbl m then jImages (binMemo ibd tbl) m masses w else Json.null
+
+structure BinReq where
+  ibd : List UInt8
+  masses : List Rat
+  width : Rat
+
+def parseBin (b : Json) : R BinReq := do
+  pure { ibd := ← (getStr b "ibd" >>= hexBytes), masses := ← getList asRat b "masses", width := ← getRat b "width_mz" }
+
+/-! the object a callback hands back -/
+
+def parsePyVal (j : Json) : R PyVal := do
+  let t ← getStr j "t"
+  match t with
+  | "bool" => pure (.bool (← getBool j "v"))
+  | "npbool" => pure (.npBool (← getBool j "v"))
+  | "int" => pure (.int (← getInt j "v"))
+  | "none" => pure .none
+  | "other" => pure (.other (← getBool j "v"))
+  | _ => throw s!"bad callback value kind {t}"
+
+/-- a callback that hands back `value` at invocation `at` and `dflt` at every other one -/
+structure CbReq where
+  dflt : PyVal
+  idx : Option Nat
+  value : PyVal
+
+def parseCb (j : Json) : R CbReq := do
+  pure { dflt := ← fld j "default" >>= parsePyVal, idx := ← fld j "at" >>= asOpt asNat, value := ← fld j "value" >>= parsePyVal }
+
+/-- the objects handed back at invocations `0 … n-1` -/
+def CbReq.vals (c : CbReq) (n : Nat) : List PyVal :=
+  (List.range n).map (fun j => if c.idx == some j then c.value else c.dflt)
+
+/-- the callback as a function of the file position: invocation `j` happens at `positions[j]` -/
+def CbReq.fn (c : CbReq) (positions : List Nat) : Nat → PyVal :=
+  match c.idx.bind (fun k => positions[k]?) with
+  | some p => fun q => if q == p then c.value else c.dflt
+  | none => fun _ => c.dflt
+
+def jOutcome : Option Nat → Json := jOpt jNat
+
+structure DocReq where
+  cls : String → Bool
+  d : Doc
+  lens : List Nat
+  ls : List (Line × Nat)        -- the rendered document
+  tls : List (Line × Nat)       -- the tokenised text of the file (= `ls` when the harness sent no text)
+  tokensOk : Bool               -- the two agree up to `Line.norm`
+
+def parseDocReq (req : Json) : R DocReq := do
+  let d ← fld req "doc" >>= parseDoc
+  let lens ← getList asNat req "lens"
+  let cname ← getStr req "cls"
+  let cls ← match cname with
+    | "any" => pure clsAny
+    | "word" => pure clsWord
+    | _ => throw s!"bad class {cname}"
+  let lines := render cls d
+  if lines.length ≠ lens.length then throw s!"{lines.length} lines rendered, {lens.length} lengths given"
+  -- the text of the file, line by line (null: not sent), classified by the code's string tests
+  let texts ← fld req "texts" >>= asOpt (asList asStr)
+  let clsC := if cname == "any" then clsAnyC else clsWordC
+  let (toks, ok) ← match texts with
+    | none => pure (lines, true)
+    | some ts =>
+      if ts.length ≠ lines.length then throw s!"{lines.length} lines rendered, {ts.length} text lines given"
+      match tokeniseAll clsC ts with
+      | none => throw "a text line is outside the domain of `tokenise`"
+      | some toks => pure (toks, toks.map Line.norm == lines.map Line.norm)
+  pure { cls := cls, d := d, lens := lens, ls := lines.zip lens, tls := toks.zip lens, tokensOk := ok }
+
+/-- one import through the fast parser with a callback: result, positions handed over, the outcomes the
+property allows and the mechanism's -/
+def jCallbackRun (q : DocReq) (free : St) (c : CbReq) : Json :=
+  let f := c.fn free.calls
+  let s := run (cbOf f) q.ls
+  let vals := c.vals free.calls.length
+  jObj [("fast", jResult (fastParse (cbOf f) q.ls)), ("calls", jList jNat s.calls),
+        ("ok_outcomes", jList jOutcome (okOutcomes vals)), ("mech_outcome", jOutcome (firstFalsy vals))]
+
+def parseEdit (j : Json) : R Edit := do
+  let k ← getStr j "k"
+  let pair (j : Json) : R (String × String) := do
+    match ← asList asStr j with
+    | [a, b] => pure (a, b)
+    | _ => throw "expected a pair of strings"
+  let triple (j : Json) : R (String × String × String) := do
+    match ← asList asStr j with
+    | [a, b, c] => pure (a, b, c)
+    | _ => throw "expected a triple of strings"
+  let group (j : Json) : R PGroup := do
+    pure { id := ← getStr j "id", dtype := ← getStr j "dtype", external := ← getBool j "external" }
+  match k with
+  | "setSize" => pure (.setSize (← fld j "size" >>= asOpt pair))
+  | "setPixel" => pure (.setPixel (← fld j "pixel" >>= pair))
+  | "dropSpectrum" => pure (.dropSpectrum (← getNat j "i"))
+  | "clearSpectra" => pure .clearSpectra
+  | "addSpectrum" =>
+    let sp ← fld j "spec"
+    pure (.addSpectrum { x := ← getStr sp "x", y := ← getStr sp "y", tic := ← fld sp "tic" >>= asOpt asStr,
+                         arrays := ← getList triple sp "arrays" })
+  | "setTic" => pure (.setTic (← getNat j "i") (← fld j "tic" >>= asOpt asStr))
+  | "setPos" => pure (.setPos (← getNat j "i") (← getStr j "x") (← getStr j "y"))
+  | "setArrays" => pure (.setArrays (← getNat j "i") (← getList triple j "arrays"))
+  | "setMz" => pure (.setMz (← fld j "group" >>= group))
+  | "setInten" => pure (.setInten (← fld j "group" >>= group))
+  | "setBin" => pure (.setBin (← getNat j "bin"))
+  | _ => throw s!"bad edit kind {k}"
+
 def handle (op : String) (req : Json) : R Json := do
   match op with
   | "c17.parse" =>
-    let d ← fld req "doc" >>= parseDoc
-    let lens ← getList asNat req "lens"
-    let cname ← getStr req "cls"
-    let cls ← match cname with
-      | "any" => pure clsAny
-      | "word" => pure clsWord
-      | _ => throw s!"bad class {cname}"
-    -- index of the callback invocation that returns False (null: the callback always returns True)
-    let abortAt ← fld req "abort_call" >>= asOpt asNat
-    let lines := render cls d
-    if lines.length ≠ lens.length then throw s!"{lines.length} lines rendered, {lens.length} lengths given"
-    let ls := lines.zip lens
-    let free := run (fun _ => true) ls
-    let cb : Nat → Bool := match abortAt with
-      | none => fun _ => true
-      | some k => match free.calls[k]? with
-        | some p => fun q => q != p
-        | none => fun _ => true
-    let s := run cb ls
-    -- specification of the callback positions: the formula over the line lengths; for an aborting
-    -- callback the first `abort + 1` of them
+    let q ← parseDocReq req
+    let cls := q.cls
+    let d := q.d
+    -- the mechanism runs on the tokenised text of the file (`tokens_agree_modulo_inert_lines`: the same as on `q.ls`)
+    let q := { q with ls := q.tls }
+    let free := run (fun _ => true) q.ls
+    -- the progress callback: which object it hands back at which invocation
+    let c ← fld req "cb" >>= parseCb
+    -- specification of the callback positions: the formula over the line lengths
     -- (`callPositionsFast` = `callPositions`, `callLinesFast` = the list of `callLine k`: theorems `callPositionsFast_eq`,
     -- `callLinesFast_eq`)
-    let positions := callPositionsFast cls d lens
-    let specCalls := match abortAt with
-      | none => positions
-      | some k => positions.take (k + 1)
+    let positions := callPositionsFast cls d q.lens
     let xd := xmlDoc d
     let xml := xmlView xd
-    let fastFree := fastParse (fun _ => true) ls
-    -- the images of both models, when the harness sent the conversion tables
+    let fastFree := fastParse (fun _ => true) q.ls
+    -- the images of both models, when the harness sent the binary
     let bin ← fld req "bin"
     let images ← match bin with
       | .null => pure Json.null
       | b => do
-        let ints ← getList (fun j => do pure ((← getStr j "text"), (← getNat j "value"))) b "ints"
-        let floats ← getList (fun j => do pure ((← getStr j "text"), (← getRat j "value"))) b "floats"
-        let reads ← getList (fun j => do
-          pure (((← getStr j "id"), (← getStr j "offset"), (← getStr j "length")), (← getList asRat j "data"))) b "reads"
-        let masses ← getList asRat b "masses"
-        let width ← getRat b "width_mz"
-        let tbl : Std.HashMap (String × String × String) (List Rat) := Std.HashMap.ofList reads
-        let B := mkBin ints floats tbl
+        let br ← parseBin b
+        let tbl := readTable br.ibd (xml.toList ++ fastFree.toOption.toList)
         let one (m : Option Model) : Json := match m with
-          | some m => if imagesHyp B ints floats tbl m then jImages B m masses (.mz width) else Json.null
+          | some m => imagesOf br.ibd tbl br.masses (.mz br.width) m
           | none => Json.null
         pure (jObj [("xml", one xml), ("fast", one fastFree.toOption)])
-    pure (jObj [("fast", jResult (fastParse cb ls)), ("calls", jList jNat s.calls),
+    pure (jObj [("callback", jCallbackRun q free c),
                 ("fast_free", jResult fastFree), ("calls_free", jList jNat free.calls),
                 ("xml", jOpt jModel xml),
-                ("call_positions", jList jNat positions), ("spec_calls", jList jNat specCalls),
+                ("call_positions", jList jNat positions),
                 ("call_lines", jList jNat (callLinesFast cls d)),
                 ("layout", jBool (decide (Layout cls d))),
                 ("text_ok", jBool (decide (TextOk d))),
                 ("layout_core_decoded", jBool (decide (LayoutCore cls xd))),
                 ("images", images),
-                ("nlines", jNat lines.length)])
+                ("tokens_ok", jBool q.tokensOk),
+                ("nlines", jNat q.ls.length)])
+  | "c17.history" =>
+    -- several imports of one document in one process (`runOps`), each with its own binary and callback,
+    -- with caller edits of the returned objects in between
+    let q ← parseDocReq req
+    let q := { q with ls := q.tls }
+    let bins ← getList (asOpt parseBin) req "bins"
+    let free := run (fun _ => true) q.ls
+    let positions := callPositionsFast q.cls q.d q.lens
+    let opsJ ← fld req "ops" >>= asArr
+    let mut ops : List Op := []
+    let mut cbs : List (Option CbReq) := []        -- per import
+    for o in opsJ do
+      match ← getStr o "op" with
+      | "import" =>
+        let b ← getNat o "bin"
+        if b ≥ bins.length then throw s!"binary {b} not given"
+        match ← getStr o "parser" with
+        | "xml" => ops := ops ++ [.imp { parser := .xml, bin := b }]; cbs := cbs ++ [none]
+        | "fast" =>
+          let c ← fld o "cb" >>= asOpt parseCb
+          ops := ops ++ [.imp { parser := .fast (c.map (fun c => cbOf (c.fn free.calls))), bin := b }]
+          cbs := cbs ++ [c]
+        | p => throw s!"bad parser {p}"
+      | "edit" => ops := ops ++ [.edit (← getNat o "obj") (← fld o "edit" >>= parseEdit)]
+      | k => throw s!"bad op {k}"
+    let sess := runOps q.d q.ls ops
+    let xml := xmlView (xmlDoc q.d)
+    let models := xml.toList ++ sess.results.filterMap (fun r => match r with | .ok o => some o.model | _ => none)
+    let tbls := bins.map (fun b => match b with
+      | some br => readTable br.ibd models
+      | none => {})
+    let imgs (o : Obj) : Json := match bins[o.bin]?, tbls[o.bin]? with
+      | some (some br), some tbl => imagesOf br.ibd tbl br.masses (.mz br.width) o.model
+      | _, _ => Json.null
+    let jRes : Result → Json
+      | .ok o => jObj [("ok", jModel o.model), ("bin", jNat o.bin), ("images", imgs o)]
+      | .fastErr e => jObj [("raises", jStr (errName e))]
+      | .xmlErr => jObj [("raises", jStr "xml")]
+    -- specification: every import gives the XML parser's model of the document with the binary of that import
+    let specs := (importsOf ops).map (fun i => match xml with
+      | some m => jRes (.ok { model := m, bin := i.bin })
+      | none => Json.null)
+    let cbInfo := cbs.map (fun c => match c with
+      | some c =>
+        let f := c.fn free.calls
+        let vals := c.vals free.calls.length
+        jObj [("calls", jList jNat (run (cbOf f) q.ls).calls),
+              ("ok_outcomes", jList jOutcome (okOutcomes vals)), ("mech_outcome", jOutcome (firstFalsy vals))]
+      | none => Json.null)
+    pure (jObj [("results", jList jRes sess.results), ("spec", Json.arr specs.toArray),
+                ("callbacks", Json.arr cbInfo.toArray), ("call_positions", jList jNat positions),
+                ("heap", jList (fun (o : Obj) => jObj [("model", jModel o.model), ("bin", jNat o.bin)]) sess.heap),
+                ("tokens_ok", jBool q.tokensOk),
+                ("layout", jBool (decide (Layout q.cls q.d)))])
   | _ => throw s!"unknown op {op}"
 
 end PewDriver.C17
